@@ -331,4 +331,89 @@ theorem pyIntL_neg_toDigits (n : Nat) : pyIntL ('-' :: Nat.toDigits 10 n) = some
   rw [natDigits?_digits _ hd false 0 (Or.inl hne), Nat.ofDigitChars_ten_toDigits]
   rfl
 
+/-! ### prefixes (towards C07: files cut at an arbitrary character) -/
+
+/-- splitting a prefix: the complete pieces before the cut, then a prefix of the piece the cut falls into -/
+theorem splitOnChar_take (c : Char) (s : List Char) (q : Nat) :
+    ∃ pre t post r, splitOnChar c s = pre ++ t :: post ∧ splitOnChar c (s.take q) = pre ++ [t.take r] := by
+  induction s generalizing q with
+  | nil => exact ⟨[], [], [], 0, rfl, by simp [splitOnChar]⟩
+  | cons a s ih =>
+    cases q with
+    | zero =>
+      by_cases hac : a = c
+      · exact ⟨[], [], splitOnChar c s, 0, by simp [splitOnChar, hac], by simp [splitOnChar]⟩
+      · obtain ⟨h, tl, hs⟩ := List.exists_cons_of_ne_nil (splitOnChar_ne_nil c s)
+        exact ⟨[], a :: h, tl, 0, by simp [splitOnChar, hac, hs, consHead], by simp [splitOnChar]⟩
+    | succ q =>
+      obtain ⟨pre, t, post, r, h1, h2⟩ := ih q
+      by_cases hac : a = c
+      · exact ⟨[] :: pre, t, post, r, by simp [splitOnChar, hac, h1], by simp [splitOnChar, hac, h2]⟩
+      · cases pre with
+        | nil =>
+          exact ⟨[], a :: t, post, r + 1, by simp [splitOnChar, hac, h1, consHead],
+            by simp [splitOnChar, hac, h2, consHead]⟩
+        | cons p0 ps =>
+          exact ⟨(a :: p0) :: ps, t, post, r, by simp [splitOnChar, hac, h1, consHead],
+            by simp [splitOnChar, hac, h2, consHead]⟩
+
+/-- `int()` of a string of digits is not negative -/
+theorem pyIntL_digits_nonneg {ds : List Char} (h : ∀ c ∈ ds, c.isDigit = true) {v : Int} (hv : pyIntL ds = some v) :
+    0 ≤ v := by
+  unfold pyIntL at hv
+  rw [trimWs_digits h] at hv
+  cases ds with
+  | nil => simp at hv
+  | cons c r =>
+    have hc : c.isDigit = true := h c (by simp)
+    have h1 : c ≠ '+' := by rintro rfl; simp at hc
+    have h2 : c ≠ '-' := by rintro rfl; simp at hc
+    simp only [h1, h2, if_false] at hv
+    rw [natDigits?_digits _ h false 0 (Or.inl (by simp))] at hv
+    simp only [Option.map_some, Option.some.injEq] at hv
+    rw [← hv]; exact Int.natCast_nonneg _
+
+/-! ### prefixes of a text -/
+
+/-- every line followed by its newline -/
+def joinNL (ls : List (List Char)) : List Char := ls.flatMap (· ++ ['\n'])
+
+/-- a prefix of a text: some complete lines, then a prefix of the next line (without its newline) -/
+theorem take_joinNL (ls : List (List Char)) (n : Nat) :
+    ∃ j q, j ≤ ls.length ∧ (joinNL ls).take n = joinNL (ls.take j) ++ (ls.getD j []).take q := by
+  induction ls generalizing n with
+  | nil => exact ⟨0, 0, by simp, by simp [joinNL]⟩
+  | cons l ls ih =>
+    by_cases hn : n ≤ l.length
+    · refine ⟨0, n, by simp, ?_⟩
+      simp only [joinNL, List.flatMap_cons, List.take_zero, List.flatMap_nil, List.nil_append, List.getD_cons_zero,
+        List.append_assoc]
+      rw [List.take_append_of_le_length hn]
+    · obtain ⟨j, q, hj, h⟩ := ih (n - (l.length + 1))
+      refine ⟨j + 1, q, by simp; omega, ?_⟩
+      have hl : (l ++ ['\n']).length ≤ n := by simp; omega
+      simp only [joinNL, List.flatMap_cons, List.take_succ_cons, List.getD_cons_succ] at h ⊢
+      rw [List.take_append (l₁ := l ++ ['\n']), List.take_of_length_le hl, List.append_assoc _ _ (List.take q _)]
+      congr 1
+      have : n - (l ++ ['\n']).length = n - (l.length + 1) := by simp
+      rw [this]; exact h
+
+theorem intercalate_nl_concat (ls : List (List Char)) (r : List Char) :
+    ['\n'].intercalate (ls ++ [r]) = joinNL ls ++ r := by
+  induction ls with
+  | nil => simp [List.intercalate, joinNL]
+  | cons l ls ih =>
+    cases hls : ls ++ [r] with
+    | nil => simp at hls
+    | cons u us =>
+      rw [List.cons_append, hls, intercalate_cons_cons, ← hls, ih]
+      simp [joinNL]
+
+theorem intercalate_nl_append_nl {ls : List (List Char)} (hne : ls ≠ []) :
+    ['\n'].intercalate ls ++ ['\n'] = joinNL ls := by
+  obtain ⟨init, last, rfl⟩ : ∃ init last, ls = init ++ [last] :=
+    ⟨ls.dropLast, ls.getLast hne, (List.dropLast_concat_getLast hne).symm⟩
+  rw [intercalate_nl_concat]
+  simp [joinNL]
+
 end SparkxVerif.Str
